@@ -74,6 +74,8 @@ def describe(c, exp, r):
     def shw(v):
         if isinstance(v, dict):
             return {k: shw(x) for k, x in v.items()}
+        if isinstance(v, str) and v.startswith("ERR"):
+            return v
         return show(v) if isinstance(v, (str, list)) else v
     return "input %s: %s" % (json.dumps(inp), json.dumps({k: shw(v) for k, v in diff.items()})[:900])
 
@@ -132,7 +134,11 @@ def rand_placeholder(rng, allow_raw):
 WORDS = [["a"], ["a", "a"], ["SQ", "a", "SP", "a", "SQ"], ["DQ", "a", "SP", "a", "DQ"], ["a", "BSL", "SP", "a"],
          ["SQ", "SQ"], ["DQ", "DQ"], ["DQ", "a", "BSL", "DQ", "DQ"], ["BSL", "SQ"], ["BSL", "BSL"],
          ["DQ", "BSL", "a", "SQ", "DQ"], ["BSL", "LF"]]
-JUNK = [["SQ"], ["DQ"], ["BSL"], ["LB"], ["RB"], ["SP"], ["a"], ["BSL", "BSL"], ["LB", "LB"]]
+JUNK = [["SQ"], ["DQ"], ["BSL"], ["LB"], ["RB"], ["SP"], ["a"], ["BSL", "BSL"], ["LB", "LB"],
+        # braces that are not placeholders
+        ["LB", "PLUS", "q", "RB"], ["LB", "s", "n", "RB"], ["LB", "n", "s", "RB"], ["LB", "q", "COLON", "RB"],
+        ["LB", "q", "COLON", "s", "RB"], ["LB", "1", "s", "RB"], ["LB", "q", "1", "RB"], ["LB", "q", "q", "RB"],
+        ["LB", "PLUS", "SP", "n", "RB"], ["LB", "n", "n", "RB"], ["LB", "a", "RB"], ["LB", "LB", "RB", "RB"]]
 
 
 def rand_template(rng):
@@ -142,7 +148,8 @@ def rand_template(rng):
         for i in range(n):
             if i and rng.random() < 0.85:
                 toks.append(["SP"] * rng.randint(1, 2))
-            toks.append(rand_placeholder(rng, False) if rng.random() < 0.6 else rng.choice(WORDS))
+            r = rng.random()
+            toks.append(rand_placeholder(rng, False) if r < 0.6 else rng.choice(WORDS) if r < 0.95 else rng.choice(JUNK[9:]))
     else:                           # anything
         for i in range(n):
             r = rng.random()
